@@ -42,10 +42,20 @@
           C02_HS_threshold_full (completeness at stop for every fuel: C02_HS_threshold_complete);
         - no duplicates with a filter installed: C02_HS_filter_nodup, C02_HS_bucket_filter_nodup
           (the liveness half with a filter is in Props/C12_HS.lean).
-  NOT proved: recursive grammars and state-threading TTCFGs (the statement is false there), and
-  everything about the unambiguous-grammar machine (UHeapSearch); they are checked on every generated
-  case against the independent language oracle and by exact correspondence of the model with the
-  implementation.
+    * UNAMBIGUOUS-GRAMMAR MACHINE (u_heap_search.py after fix 7721229: UHSEnumerator, UHeapSearch, BucketSearch;
+      model PS/Model/Enum/UHeapSearch.lean with `kway = true`; proofs PS/Proofs/Enum/U*.lean), section
+      "unambiguous machine" at the end of this file:
+        - soundness as a state invariant, any grammar: C02_HS_U_sound (+ _inv_init, _query_sound, _sound_step,
+          _stored_priority, _start_priority);
+        - no duplicates on unambiguous grammars, every prefix and fuel: C02_HS_U_nodup, C02_HS_U_nodup_det,
+          C02_HS_U_filter_nodup;
+        - acyclic unambiguous grammars with several start symbols: completeness when the generator stops
+          (C02_HS_U_complete, C02_HS_U_exactly_once, C02_HS_U_exhausted_complete), termination
+          (C02_HS_U_query_total, C02_HS_U_stops) and the full statement C02_HS_U_full (heap search) /
+          C02_HS_U_bucket_full (bucket search).
+  NOT proved: recursive grammars and state-threading TTCFGs (the statement is false there), thresholds of
+  the unambiguous machine; they are checked on every generated case against the independent language
+  oracle and by exact correspondence of the model with the implementation.
 -/
 import PS.Model.Enum.HeapSearch
 import PS.Model.Enum.UHeapSearch
